@@ -649,7 +649,7 @@ void DOMLSSerializerImpl::processNode(const DOMNode* const nodeToWrite, int leve
             if (checkFilter(nodeToWrite) != DOMNodeFilter::FILTER_ACCEPT)
                 break;
 
-            ensureValidString(nodeToWrite, nodeValue);
+            ensureValidString(nodeToWrite, nodeValue, true);
             if (getFeature(FORMAT_PRETTY_PRINT_ID))
             {
                 fLineFeedInTextNodePrinted = false;
@@ -941,7 +941,7 @@ void DOMLSSerializerImpl::processNode(const DOMNode* const nodeToWrite, int leve
                             {
                                 if(child->getNodeType()==DOMNode::TEXT_NODE)
                                 {
-                                    ensureValidString(attribute, child->getNodeValue());
+                                    ensureValidString(attribute, child->getNodeValue(), true);
                                     *fFormatter  << child->getNodeValue();
                                 }
                                 else if(child->getNodeType()==DOMNode::ENTITY_REFERENCE_NODE)
@@ -953,7 +953,7 @@ void DOMLSSerializerImpl::processNode(const DOMNode* const nodeToWrite, int leve
                         }
                         else
                         {
-                            ensureValidString(attribute, attribute->getNodeValue());
+                            ensureValidString(attribute, attribute->getNodeValue(), true);
                             *fFormatter  << attribute->getNodeValue();
                         }
                         *fFormatter  << XMLFormatter::NoEscapes
@@ -1061,7 +1061,7 @@ void DOMLSSerializerImpl::processNode(const DOMNode* const nodeToWrite, int leve
                 {
                     if(child->getNodeType()==DOMNode::TEXT_NODE)
                     {
-                        ensureValidString(nodeToWrite, child->getNodeValue());
+                        ensureValidString(nodeToWrite, child->getNodeValue(), true);
                         *fFormatter  << child->getNodeValue();
                     }
                     else if(child->getNodeType()==DOMNode::ENTITY_REFERENCE_NODE)
@@ -1073,7 +1073,7 @@ void DOMLSSerializerImpl::processNode(const DOMNode* const nodeToWrite, int leve
             }
             else
             {
-                ensureValidString(nodeToWrite, nodeValue);
+                ensureValidString(nodeToWrite, nodeValue, true);
                 *fFormatter  << nodeValue;
             }
             *fFormatter  << XMLFormatter::NoEscapes
@@ -1768,7 +1768,7 @@ bool DOMLSSerializerImpl::isNamespaceBindingActive(const XMLCh* prefix, const XM
     return false;
 }
 
-void DOMLSSerializerImpl::ensureValidString(const DOMNode* nodeToWrite, const XMLCh* string)
+void DOMLSSerializerImpl::ensureValidString(const DOMNode* nodeToWrite, const XMLCh* string, bool charRefsPossible)
 {
     // XERCESC-1854: prevent illegal characters from being written
     // XERCESC-2130: allow surrogates
@@ -1779,6 +1779,13 @@ void DOMLSSerializerImpl::ensureValidString(const DOMNode* nodeToWrite, const XM
     {
         if((fIsXml11 && !XMLChar1_1::isXMLChar(*cursor)) || (!fIsXml11 && !XMLChar1_0::isXMLChar(*cursor)))
         {
+            // XML 1.1 has the control characters, but only as character references;
+            // that is how the formatter writes them where it does escaping
+            if(fIsXml11 && charRefsPossible && XMLChar1_1::isControlChar(*cursor))
+            {
+                cursor++;
+                continue;
+            }
             if((*cursor >= 0xD800) && (*cursor <= 0xDBFF))
             {
                 XMLCh leadingSurrogate = *cursor;
